@@ -53,11 +53,22 @@ def interSorted (a b : List Bytes) : List Bytes := a.filter fun x => b.contains 
 
 /-! ## state -/
 
+/-- the series' key inside one TSM file (single field): the values as written, the tombstone
+    ranges recorded for the key (`indirectIndex.tombstones`), and whether the key has been
+    removed from the file's index (`indirectIndex.Delete`) -/
+structure FileEnt where
+  pts : List (Int × Int)
+  tombs : List (Int × Int)
+  gone : Bool
+deriving Repr, DecidableEq
+
 structure Series where
   name : Bytes
   tags : Tags
-  /-- time ↦ value, ascending in time, one value per time; never empty for a listed series -/
-  pts : List (Int × Int)
+  /-- TSM files holding the series, oldest first -/
+  files : List FileEnt
+  /-- the cache entry: time ↦ value, ascending, one value per time -/
+  cache : List (Int × Int)
 deriving Repr, DecidableEq
 
 structure Shard where
@@ -79,17 +90,37 @@ def insertPt (p : Int × Int) : List (Int × Int) → List (Int × Int)
 
 def addPts (pts new : List (Int × Int)) : List (Int × Int) := new.foldl (fun acc p => insertPt p acc) pts
 
+/-- the values of a file entry that no tombstone covers -/
+def FileEnt.visible (f : FileEnt) : List (Int × Int) :=
+  if f.gone then [] else f.pts.filter fun p => !f.tombs.any fun r => decide (r.1 ≤ p.1 ∧ p.1 ≤ r.2)
+
+/-- what a read of the series returns: files oldest to newest, then the cache; newer wins -/
+def Series.pts (s : Series) : List (Int × Int) :=
+  addPts (s.files.foldl (fun acc f => addPts acc f.visible) []) s.cache
+
+/-- the shard's index lists the series while a TSM file still has its key or the cache has values
+    (`deleteSeriesRange`'s reconciliation) -/
+def Series.listed (s : Series) : Bool := s.files.any (fun f => !f.gone) || !s.cache.isEmpty
+
 def Shard.write (sh : Shard) (name : Bytes) (tags : Tags) (pts : List (Int × Int)) : Shard :=
   if sh.series.any (fun s => s.name = name ∧ s.tags = tags) then
     { sh with series := sh.series.map fun s =>
-        if s.name = name ∧ s.tags = tags then { s with pts := addPts s.pts pts } else s }
+        if s.name = name ∧ s.tags = tags then { s with cache := addPts s.cache pts } else s }
   else
     { sh with
-      series := sh.series ++ [⟨name, tags, addPts [] pts⟩],
+      series := sh.series ++ [⟨name, tags, [], addPts [] pts⟩],
       tagvals := sh.tagvals ++ (tags.map fun t => (name, t.1, t.2)).filter fun e => !sh.tagvals.contains e }
 
 def write (st : State) (shard : Nat) (name : Bytes) (tags : Tags) (pts : List (Int × Int)) : State :=
   st.map fun sh => if sh.id = shard then sh.write name tags pts else sh
+
+/-- `Engine.WriteSnapshot`: the cache entries become one new TSM file -/
+def Shard.snapshot (sh : Shard) : Shard :=
+  { sh with series := sh.series.map fun s =>
+      if s.cache.isEmpty then s else { s with files := s.files ++ [⟨s.cache, [], false⟩], cache := [] } }
+
+def snapshot (st : State) (shard : Nat) : State :=
+  st.map fun sh => if sh.id = shard then sh.snapshot else sh
 
 /-! ## delete -/
 
@@ -100,12 +131,13 @@ def conjuncts : Pred → List Pred
 
 /-- what `Store.DeleteSeriesWithPredicate` takes for `measurementName` when the HTTP handler
     derived the measurement expression: exactly one `_measurement` comparison among the
-    top-level conjuncts — whatever its operator. -/
+    top-level conjuncts, and that one an equality (fix C17-delete-measurement-neq-shortcut:
+    before it any operator was taken, so `_measurement != x` deleted only up to `x`). -/
 def measNameOf (p : Pred) : Option Bytes :=
   match (conjuncts p).filter (fun c => match c with
       | .rule k _ _ => k = DelPred.measurementKey
       | _ => false) with
-  | [.rule _ _ v] => some v
+  | [.rule _ false v] => some v
   | _ => none
 
 def Shard.measurements (sh : Shard) : List Bytes := sortDedup (sh.series.map (·.name))
@@ -127,13 +159,55 @@ def predSelects (pred : Option Pred) (name : Bytes) (tags : Tags) : Bool :=
   | none => true
   | some p => (DelPred.matchSeries p name tags).getD false
 
+/-- the points outside `[min, max]` -/
+def cutPts (min max : Int) (pts : List (Int × Int)) : List (Int × Int) :=
+  pts.filter fun p => !(decide (min ≤ p.1 ∧ p.1 ≤ max))
+
+/-- insertion into the tombstone list in the order `indirectIndex.DeleteRange` sorts it
+    (by Min, then Max) -/
+def insertTomb (r : Int × Int) : List (Int × Int) → List (Int × Int)
+  | [] => [r]
+  | q :: qs => if r.1 < q.1 ∨ (r.1 = q.1 ∧ r.2 ≤ q.2) then r :: q :: qs else q :: insertTomb r qs
+
+/-- the window test of `indirectIndex.DeleteRange`: the sorted tombstones line up without a gap;
+    returns the covered window, `none` when there is a gap -/
+def tombWindow : List (Int × Int) → Option (Int × Int)
+  | [] => none
+  | r :: rest =>
+    let rec go (prev : Int × Int) (w : Int × Int) : List (Int × Int) → Option (Int × Int)
+      | [] => some w
+      | t :: ts =>
+        if prev.2 ≠ t.1 - 1 ∧ ¬(prev.1 ≤ t.2 ∧ prev.2 ≥ t.1) then none
+        else go t (if t.1 < w.1 then t.1 else w.1, if t.2 > w.2 then t.2 else w.2) ts
+    go r r rest
+
+/-- `indirectIndex.DeleteRange` on one key of one file -/
+def FileEnt.deleteRange (f : FileEnt) (min max : Int) : FileEnt :=
+  if f.gone then f else
+  match f.pts.head?, f.pts.getLast? with
+  | some a, some b =>
+    if min > b.1 ∨ max < a.1 then f                    -- outside the key's time range
+    else if min ≤ a.1 ∧ max ≥ b.1 then { f with gone := true }   -- covers every value
+    else
+      let ts := insertTomb (min, max) f.tombs
+      match tombWindow ts with
+      | some w => if w.1 ≤ a.1 ∧ w.2 ≥ b.1 then { f with gone := true } else { f with tombs := ts }
+      | none => { f with tombs := ts }
+  | _, _ => f
+
+/-- range delete on one series (`sel` = it is among the series handed to `DeleteSeriesRange`):
+    tombstones in every file, values cut from the cache; the series leaves the index iff no
+    file has its key any more and the cache has no value for it -/
+def delSeries (sel : Bool) (min max : Int) (s : Series) : Option Series :=
+  if sel then
+    let s' : Series := { s with files := s.files.map (·.deleteRange min max), cache := cutPts min max s.cache }
+    if s'.listed then some s' else none
+  else some s
+
 def Shard.delete (sh : Shard) (min max : Int) (pred : Option Pred) (mname : Option Bytes) : Shard :=
   let vis := visited sh mname
   let series' := sh.series.filterMap fun s =>
-    if vis.contains s.name ∧ predSelects pred s.name s.tags then
-      let pts := s.pts.filter fun p => !(min ≤ p.1 ∧ p.1 ≤ max)
-      if pts.isEmpty then none else some { s with pts := pts }
-    else some s
+    delSeries (vis.contains s.name && predSelects pred s.name s.tags) min max s
   -- a measurement that lost its last series is dropped from the index with all its tag entries
   { sh with series := series',
             tagvals := sh.tagvals.filter fun e => series'.any fun s => s.name = e.1 }
